@@ -185,8 +185,39 @@ def join(path, name):
     return "/" + name if path == "/" else path + "/" + name
 
 
+# ---- links.  LINK_PARENTS = the white list of cg_link_write (Gen_C04.link_parents, filled by load_link_parents()); a link child
+# is an opaque leaf whose payload is the string "@<file>|<path>" (file empty = the same file); kinds without a "P" descriptor
+NO_P = {D, F, "FamilyName_t", "FamilyBC_t", "GeometryEntity_t"}
+LINK_PARENTS = set()
+GOTO_CHILDREN = {}                 # parent label -> the child labels cg_goto accepts there (Gen_C11.goto_table)
+
+
+def load_link_parents():
+    LINK_PARENTS.clear()
+    GOTO_CHILDREN.clear()
+    for l in vlib.run_model("c04", "tables\n"):
+        t = l.split()
+        if t[0] == "link_parents":
+            LINK_PARENTS.update(t[1].split(",") if len(t) > 1 else [])
+        elif t[0] == "goto":
+            GOTO_CHILDREN[t[1]] = t[2].split(",") if len(t) > 2 else []
+
+
+def is_link(p):
+    return isinstance(p, str) and p.startswith("@")
+
+
+def link_kinds_at(path, pl):
+    """the kinds a link child under `path` may have in the histories: those whose writer deletes and re-creates (an in-place
+    rewrite would go THROUGH the link into the target) and whose reader needs nothing of the zone the target lives in"""
+    return [k for k in kinds_at(path, pl) if k[1] == "w" and k[0] in GOTO_CHILDREN.get(pl, [])]     # (cg_is_link needs the position)
+
+
 # triggers of defects still present in /repo (set by the probes at the start of a run): the random histories avoid them
-AVOID = {"afn_overwrite": False, "pzone_integral": False, "pit": False}
+AVOID = {"afn_overwrite": False, "pzone_integral": False, "pit": False, "stale_array": False}
+# parents whose arrays cgi_read_array does NOT load into memory when the file is opened
+NOCACHE = {"GridCoordinates_t", "FlowSolution_t", "Elements_t", "ZoneSubRegion_t", "DiscreteData_t", "ParticleCoordinates_t",
+           "ParticleSolution_t", "UserDefinedData_t"}
 
 
 def kinds_at(path, pl):
@@ -234,8 +265,8 @@ class Ref:
         nd = self.nodes[path]
         fresh = name not in nd["names"]
         nd["names"][name] = (label, p)
-        if fresh:
-            nd["slots"].setdefault(label, []).append(name)
+        if name not in nd["slots"].setdefault(label, []):
+            nd["slots"][label].append(name)
         return fresh
 
     def write(self, path, pl, label, name, p, mode):
@@ -256,6 +287,39 @@ class Ref:
             if label in CAT:
                 self.nodes[cp] = self._new(label)
         return 0, nd["slots"][label].index(name) + 1
+
+    def link(self, path, pl, label, name, ident):
+        """cg_link_write: refused under a parent label that is not on the white list or when the name is taken; otherwise the
+        FILE has a new child -- the session lists it after the next cg_close + cg_open (no slot here)"""
+        nd = self.nodes.get(path)
+        if nd is None or nd["label"] != pl or pl not in LINK_PARENTS or name in nd["names"]:
+            return 1
+        nd["names"][name] = (label, ident)
+        nd["file"].append(name)
+        return 0
+
+    def links(self):
+        """live link children: (parent path, name, label, identity)"""
+        return [(p, n, lab, pay) for p, nd in self.nodes.items() for n, (lab, pay) in nd["names"].items() if is_link(pay)]
+
+    def pinned(self, sub):
+        """is `sub` or something below it the target of a live link inside the same file?"""
+        for _, _, _, ident in self.links():
+            f, t = ident[1:].split("|", 1)
+            if f == "" and (t == sub or t.startswith(sub + "/")):
+                return True
+        return False
+
+    def has_link_below(self, sub):
+        return any(p == sub or p.startswith(sub + "/") for p, _, _, _ in self.links())
+
+    def inside_target(self, path):
+        """is `path` at or below the target of a live same-file link?  (links there would chain)"""
+        for _, _, _, ident in self.links():
+            f, t = ident[1:].split("|", 1)
+            if f == "" and (path == t or path.startswith(t + "/")):
+                return True
+        return False
 
     def mk(self, path, chain):
         """a single-child container: the intermediate node of a chain (BCProperty_t, GridConnectivityProperty_t) is kept when
@@ -288,7 +352,8 @@ class Ref:
             return 1
         label = nd["names"].pop(name)[0]
         nd["file"].remove(name)
-        nd["slots"][label].remove(name)
+        if name in nd["slots"].get(label, []):
+            nd["slots"][label].remove(name)
         self.drop(join(path, name))
         return 0
 
@@ -303,14 +368,14 @@ class Ref:
 
     def reopen(self):
         for nd in self.nodes.values():
-            for label in nd["slots"]:
+            for label in set(nd["slots"]) | {lab for lab, _ in nd["names"].values()}:
                 nd["slots"][label] = self.read_order(nd, label)
 
     def view(self, path, pl, label):
         nd = self.nodes.get(path)
         if nd is None or nd["label"] != pl:
             return []
-        return [(n, nd["names"][n][1]) for n in nd["slots"].get(label, [])]
+        return [(n, nd["names"][n][1]) for n in nd["slots"].get(label, []) if n in nd["names"]]
 
     def file_view(self, path, label):
         nd = self.nodes.get(path)
@@ -329,7 +394,7 @@ class Ref:
 
 
 def fmt_view(v):
-    return "v %d %s" % (len(v), ",".join("%s:%d" % x for x in v) if v else "-")
+    return "v %d %s" % (len(v), ",".join("%s:%s" % x for x in v) if v else "-")
 
 
 def parse_view(line):
@@ -354,15 +419,60 @@ def header(backend, path, compress):
     return ["ft " + backend, "compress %d" % compress, "open w " + path, "w / CGNSTree_t CGNSBase_t B 1", "close", "open m " + path]
 
 
+def donor_plan(pl, label, gen):
+    """the ops that make, in the file links point into, an entity of kind `label` under a node labelled pl -> (ops, its path);
+    generation `gen` of that file gives the entity another payload (the file is regenerated before the fresh open)"""
+    r = route_ops(pl, fixed=True)
+    if r is None:
+        return None
+    ops, path = r
+    entry = [k for k in kinds_at(path, pl) if k[0] == label]
+    if not entry:
+        return None
+    mode, bound = entry[0][1], entry[0][2]
+    pay = 17 + 100 * gen
+    name = "T" + TAG.get(label, "N")
+    return ops + [(mode, path, pl, label, name, pay % bound if bound else pay)], join(path, name), (pay % bound if bound else pay)
+
+
+def donor_file(fpath):
+    return fpath + ".donor"
+
+
+def donor_lines(ops, target, gen):
+    """script lines that write generation `gen` of the link-target file to `target`"""
+    seen, body = set(), []
+    for op in ops:
+        if op[0] in ("ln", "lnraw") and op[5] == "D":
+            plan = donor_plan(op[2], op[3], gen)
+            if plan is None:
+                continue
+            for o in plan[0]:
+                l = op_line(o)
+                if l not in seen:
+                    seen.add(l); body.append(l)
+    # (filled in modify mode like the main file: the harness reads the zone size back to dimension arrays)
+    return ["open w " + target, "w / CGNSTree_t CGNSBase_t B 1", "close", "open m " + target] + body + ["close"]
+
+
 def expand(ops, backend, fpath, compress, full_every=None):
-    """ops (w/u/d/mk/reopen tuples) -> (script lines, expectations) where expectations[i] describes what line i must be.
+    """ops (w/u/d/mk/reopen/ln tuples) -> (script lines, expectations) where expectations[i] describes what line i must be.
     After every op the views of all kinds under the op's parent and of every non-empty group are taken; around a reopen
-    every group of every live node is viewed."""
+    every group of every live node is viewed.  ("ln", path, pl, label, name, "D" | "", target path) = cg_link_write (into the
+    second file / the same file) followed by cg_close + cg_open; "lnraw" = without that.  When a link into the second file
+    occurs, that file is written first and written AGAIN, with other payloads, between the last cg_close and the fresh open."""
     ref = Ref()
     ref.write("/", "CGNSTree_t", "CGNSBase_t", "B", 1, "w")
-    lines = header(backend, fpath, compress)
-    exp = [("c", None)] * len(lines)
-    exp[3] = ("w", (0, 1))
+    donor = donor_file(fpath)
+    ext = any(op[0] in ("ln", "lnraw") and op[5] == "D" for op in ops)
+    lines, exp = [], []
+    if ext:
+        lines = ["ft " + backend] + donor_lines(ops, donor, 1)
+        exp = [("c", None)] + [("donor", None)] * (len(lines) - 1)
+    h = header(backend, fpath, compress)
+    lines += h
+    exp += [("c", None)] * len(h)
+    exp[len(lines) - 3] = ("w", (0, 1))
 
     def views(groups, tag):
         for g in groups:
@@ -376,6 +486,16 @@ def expand(ops, backend, fpath, compress, full_every=None):
             lines.append("%s %s %s %s %s %d" % (op[0], path, pl, label, name, p))
             exp.append(("w", (st, idx if st == 0 else 0), k))
             near = [(path, pl, l) for l, _, _ in kinds_at(path, pl)]
+        elif op[0] in ("ln", "lnraw"):
+            _, path, pl, label, name, tfile, tpath = op
+            st = ref.link(path, pl, label, name, "@%s|%s" % (donor if tfile == "D" else "", tpath))
+            lines.append("ln %s %s %s %s %s %s" % (path, pl, label, name, donor if tfile == "D" else "-", tpath))
+            exp.append(("l", st, k))
+            if op[0] == "ln":
+                ref.reopen()
+                lines.append("reopen m")
+                exp.append(("o", 0, k))
+            near = [(path, pl, l) for l, _, _ in kinds_at(path, pl)] if path in ref.nodes else []
         elif op[0] == "d":
             _, path, pl, name = op
             nd = ref.nodes.get(path)
@@ -413,9 +533,23 @@ def expand(ops, backend, fpath, compress, full_every=None):
         views(gs, ("after", k))
     views(ref.groups(), ("pre", len(ops)))
     ref.reopen()
-    lines.append("reopen r")
-    exp.append(("o", 0, len(ops)))
+    if ext:
+        # cg_close; the file the links point into is written again with other payloads; the fresh open
+        lines.append("close"); exp.append(("c", 0))
+        d2 = donor_lines(ops, donor + ".new", 2) + ["mv %s.new %s" % (donor, donor)]
+        lines += d2; exp += [("donor", None)] * len(d2)
+        lines.append("open r " + fpath); exp.append(("o2", 0, len(ops)))
+    else:
+        lines.append("reopen r")
+        exp.append(("o", 0, len(ops)))
     views(ref.groups(), ("post", len(ops)))
+    if ext:
+        # what lies behind a link into the second file is what that file holds NOW
+        for lp, ln, lab, ident in ref.links():
+            if ident.startswith("@" + donor + "|") and lab not in NO_P:
+                plan = donor_plan(ref.nodes[lp]["label"], lab, 2)
+                if plan is not None and ident == "@%s|%s" % (donor, plan[1]):
+                    lines.append("p " + join(lp, ln)); exp.append(("p", plan[2]))
     lines.append("close")
     exp.append(("c", None))
     return lines, exp
@@ -450,6 +584,24 @@ def evaluate(ops, lines, exp, out, outcome):
             if got != "o 0":
                 fails.append({"class": "reopen-failed", "line": lines[i], "got": got})
             continue
+        if kind == "o2":
+            if got != "c 0":
+                fails.append({"class": "reopen-failed", "line": lines[i], "got": got})
+            continue
+        if kind == "donor":
+            if not got.startswith(("w 0", "c 0")):
+                fails.append({"class": "link-target-file", "line": lines[i], "got": got,
+                              "note": "the second file (the target of the links) could not be written"})
+            continue
+        if kind == "l":
+            if got != "l %d" % e[1]:
+                fails.append({"class": "status", "line": lines[i], "expected": "l %d" % e[1], "got": got, "op": e[2]})
+            continue
+        if kind == "p":
+            if got != "p %d" % e[1]:
+                fails.append({"class": "through-link", "oracle": "a link into another file shows what that file holds now",
+                              "line": lines[i], "expected": "p %d" % e[1], "got": got})
+            continue
         g, want, tag = e[1]
         v = parse_view(got)
         if v is None:
@@ -482,7 +634,7 @@ def evaluate(ops, lines, exp, out, outcome):
             snap_cur[g] = v
             if tag[0] == "after" and g in snap_prev:
                 op = ops[tag[1]]
-                tpath, tname = (op[1], op[4]) if op[0] in ("w", "u") else (op[1], op[3]) if op[0] == "d" else (None, None)
+                tpath, tname = (op[1], op[4]) if op[0] in ("w", "u", "ln", "lnraw") else (op[1], op[3]) if op[0] == "d" else (None, None)
                 sub = join(tpath, tname) if tpath else None
                 if sub and (g[0] == sub or g[0].startswith(sub + "/")):
                     continue
@@ -496,6 +648,36 @@ def evaluate(ops, lines, exp, out, outcome):
     return fails
 
 
+def links_well_formed(ops):
+    """no link of the history ever dangles: the target of a link inside the file exists when the link is made and as long as
+    the link lives (the API documents an error for a missing target: such histories say nothing)"""
+    ref = Ref()
+    ref.write("/", "CGNSTree_t", "CGNSBase_t", "B", 1, "w")
+
+    def exists(t):
+        up, name = (t.rsplit("/", 1)[0] or "/"), t.rsplit("/", 1)[1]
+        nd = ref.nodes.get(up)
+        return bool(nd and name in nd["names"] and not is_link(nd["names"][name][1]))
+    for op in ops:
+        if op[0] in ("w", "u"):
+            ref.write(op[1], op[2], op[3], op[4], op[5], op[0])
+        elif op[0] == "d":
+            ref.delete(op[1], op[3])
+        elif op[0] == "mk":
+            ref.mk(op[1], op[4])
+        elif op[0] == "reopen":
+            ref.reopen()
+        elif op[0] in ("ln", "lnraw"):
+            if op[5] == "" and not exists(op[6]):
+                return False
+            ref.link(op[1], op[2], op[3], op[4], "@%s|%s" % ("<D>" if op[5] == "D" else "", op[6]))
+        for _, _, _, ident in ref.links():
+            f, t = ident[1:].split("|", 1)
+            if f == "" and not exists(t):
+                return False
+    return True
+
+
 def lines_of_op(op):
     if op[0] in ("w", "u"):
         return "%s %s %s %s %s %d" % op
@@ -503,6 +685,8 @@ def lines_of_op(op):
         return "d %s %s %s" % op[1:]
     if op[0] == "mk":
         return "mk %s %s%s" % (op[1], op[2], " " + op[3] if op[3] else "")
+    if op[0] in ("ln", "lnraw"):
+        return "%s %s %s %s %s %s %s" % (op[0], op[1], op[2], op[3], op[4], "<second file>" if op[5] == "D" else "-", op[6])
     return " ".join(str(x) for x in op)
 
 
@@ -511,6 +695,9 @@ def run_case(exe, ops, backend, fpath, compress):
         os.unlink(fpath)
     lines, exp = expand(ops, backend, fpath, compress)
     out, outcome = vlib.run_impl(exe, "\n".join(lines) + "\n", timeout=300)
+    for f in (donor_file(fpath), donor_file(fpath) + ".new", fpath + ".temp"):
+        if os.path.exists(f):
+            os.unlink(f)
     return lines, exp, out, outcome
 
 
@@ -533,14 +720,16 @@ def order_by_design(ops, fails):
 
 # ----------------------------------------------------------------------------------------------- the generator
 class Gen:
-    def __init__(self, rng, big=False, allow_nonlast=True):
+    def __init__(self, rng, big=False, allow_nonlast=True, links=0.0):
         self.rng, self.big, self.allow_nonlast = rng, big, allow_nonlast
+        self.links = links            # probability that an edit step creates a link
         self.ref = Ref()
         self.ref.write("/", "CGNSTree_t", "CGNSBase_t", "B", 1, "w")
         self.ops = []
         self.counter = 0
         self.touched = {}            # (parent label, label) -> set of op kinds seen
         self.mk_done = set()
+        self.loaded = set()          # (parent path, name) of the arrays the library loaded at the last cg_open
 
     def fresh_name(self, label):
         self.counter += 1
@@ -558,8 +747,26 @@ class Gen:
     def note(self, pl, label, what):
         self.touched.setdefault((pl, label), set()).add(what)
 
+    def array_mode(self, path, pl, label, name, mode):
+        """a DataArray_t under a parent of the node-context API can also be rewritten in place (cg_array_general_write)"""
+        if label != A or mode != "w" or self.rng.random() >= 0.35:
+            return mode
+        if AVOID["stale_array"] and (path, name) in self.loaded:
+            return mode
+        return "u"
+
     def emit(self, op):
         self.ops.append(op)
+        if op[0] in ("reopen", "ln"):
+            self.loaded = None
+        elif op[0] in ("w", "d") and self.loaded:
+            self.loaded.discard((op[1], op[4] if op[0] == "w" else op[3]))
+        self._emit(op)
+        if self.loaded is None:
+            self.loaded = {(p, n) for p, nd in self.ref.nodes.items() if nd["label"] not in NOCACHE
+                           for n, (lab, _) in nd["names"].items() if lab == A}
+
+    def _emit(self, op):
         if op[0] in ("w", "u"):
             self.ref.write(op[1], op[2], op[3], op[4], op[5], op[0])
         elif op[0] == "d":
@@ -568,6 +775,32 @@ class Gen:
             self.ref.mk(op[1], op[4])
         elif op[0] == "reopen":
             self.ref.reopen()
+        elif op[0] in ("ln", "lnraw"):
+            self.ref.link(op[1], op[2], op[3], op[4], "@%s|%s" % ("<D>" if op[5] == "D" else "", op[6]))
+            if op[0] == "ln":
+                self.ref.reopen()
+
+    def link_op(self, path, pl, label):
+        """a link child of kind `label` under `path`: into the second file, or to an existing entity of that kind under a
+        parent with the same label in this file (never to an ancestor, never from inside a target: no chains, no cycles)"""
+        if pl not in LINK_PARENTS or self.ref.inside_target(path) or not [k for k in link_kinds_at(path, pl) if k[0] == label]:
+            return None
+        name = ("L" + self.fresh_name(label))[:32]
+        cands = []
+        for tp, nd in self.ref.nodes.items():
+            if nd["label"] != pl:
+                continue
+            for n, (lab, pay) in nd["names"].items():
+                t = join(tp, n)
+                if lab == label and not is_link(pay) and n in nd["slots"].get(label, []) and not (path == t or path.startswith(t + "/")) \
+                        and not self.ref.has_link_below(t):
+                    cands.append(t)
+        if cands and self.rng.random() < 0.4:
+            return ("ln", path, pl, label, name, "", self.rng.choice(sorted(cands)))
+        plan = donor_plan(pl, label, 1)
+        if plan is None:
+            return None
+        return ("ln", path, pl, label, name, "D", plan[1])
 
     def positions(self):
         return [(p, nd["label"]) for p, nd in self.ref.nodes.items() if nd["label"] in CAT]
@@ -588,6 +821,9 @@ class Gen:
                      and not (m[0] == "piter" and AVOID["pit"])]
             if cands:
                 m = self.rng.choice(cands)
+                old = [n for n, (lab, _) in self.ref.nodes[path]["names"].items() if lab == m[3][0][1]]
+                if any(self.ref.pinned(join(path, o)) for o in old):
+                    return
                 self.mk_done.add((path, m[0], m[1]))
                 self.emit(mk_op(path, m))
                 return
@@ -601,7 +837,7 @@ class Gen:
         label, mode, bound = self.rng.choice(ks)
         name = "GridCoordinates" if (label == "GridCoordinates_t" and "GridCoordinates" not in self.ref.nodes[path]["names"]
                                      and self.rng.random() < 0.7) else self.fresh_name(label)
-        self.emit((mode, path, pl, label, name, self.payload(bound)))
+        self.emit((self.array_mode(path, pl, label, name, mode), path, pl, label, name, self.payload(bound)))
         self.note(pl, label, "create")
 
     def edit(self):
@@ -616,6 +852,12 @@ class Gen:
         _, mode, bound = entry[0]
         sibs = [n for n, _ in self.ref.view(path, pl, label)]
         filev = [n for n, _ in self.ref.file_view(path, label)]
+        if self.links and self.rng.random() < self.links:
+            op = self.link_op(path, pl, label)
+            if op is not None:
+                self.emit(op)
+                self.note(pl, label, "link")
+                return
         r = self.rng.random()
         if r < 0.30 or len(sibs) < 2:
             self.emit((mode, path, pl, label, self.fresh_name(label), self.payload(bound)))
@@ -625,6 +867,12 @@ class Gen:
             name = {"first": sibs[0], "last": sibs[-1], "mid": sibs[len(sibs) // 2], "any": self.rng.choice(sibs)}[pick]
             if mode == "w" and not self.allow_nonlast and filev and filev[-1] != name:
                 name = filev[-1]
+            if not is_link(self.ref.nodes[path]["names"][name][1]):
+                mode = self.array_mode(path, pl, label, name, mode)
+            if mode == "w" and self.ref.pinned(join(path, name)):
+                return                     # the target of a link inside the file stays (a dangling link cannot be opened)
+            if mode == "u" and is_link(self.ref.nodes[path]["names"][name][1]):
+                return
             self.emit((mode, path, pl, label, name, self.payload(bound)))
             self.note(pl, label, "overwrite" if mode == "w" else "rewrite")
             if mode == "w" and filev and filev[-1] != name:
@@ -632,7 +880,7 @@ class Gen:
         elif r < 0.95:
             pick = self.rng.choice(["first", "last", "mid", "any"])
             name = {"first": sibs[0], "last": sibs[-1], "mid": sibs[len(sibs) // 2], "any": self.rng.choice(sibs)}[pick]
-            if name == "GridCoordinates":
+            if name == "GridCoordinates" or self.ref.pinned(join(path, name)):
                 return
             self.emit(("d", path, pl, name))
             self.note(pl, label, "delete")
@@ -642,7 +890,7 @@ class Gen:
     def drop_container(self):
         """delete a single child (CGNS_DELETE_CHILD arm) together with everything the history put below it"""
         cands = [(p, nd["label"], n) for p, nd in self.ref.nodes.items() for n, (lab, _) in nd["names"].items()
-                 if lab in CONTAINER_LABELS and lab != "BaseIterativeData_t"]
+                 if lab in CONTAINER_LABELS and lab != "BaseIterativeData_t" and not self.ref.pinned(join(p, n))]
         if not cands:
             return self.edit()
         path, pl, name = self.rng.choice(cands)
@@ -671,7 +919,7 @@ class Gen:
         return self.ops
 
 
-def focused_history(rng, target, allow_nonlast=True):
+def focused_history(rng, target, allow_nonlast=True, links=0.0):
     """a history aimed at ONE (parent label, label) group: the shortest chain of entities that makes a position with
     the parent label exist, then create / overwrite / delete on that group with sibling kinds around it"""
     g = Gen(rng, allow_nonlast=allow_nonlast)
@@ -707,7 +955,7 @@ def focused_history(rng, target, allow_nonlast=True):
     _, mode, bound = entry[0]
     others = [k for k in g.kinds_at(path, pl) if k[0] != label]
     names = []
-    n0 = rng.randint(3, 5)
+    n0 = rng.randint(4, 5)
     for i in range(n0):
         nm = g.fresh_name(label)
         g.emit((mode, path, pl, label, nm, g.payload(bound))); names.append(nm)
@@ -715,20 +963,40 @@ def focused_history(rng, target, allow_nonlast=True):
             ol, om, ob = rng.choice(others)
             g.emit((om, path, pl, ol, g.fresh_name(ol), g.payload(ob)))
     g.note(pl, label, "create")
+    # always: two deletions in one session, then the first survivor (the last one where only index-preserving overwrites are
+    # wanted) is overwritten by name -- whatever the library keeps per name (arrays, name -> index maps) has shifted twice
+    if not (label == F and AVOID["afn_overwrite"]):
+        for _ in range(2):
+            g.emit(("d", path, pl, names[0])); names.pop(0)
+        g.note(pl, label, "delete")
+        filev = [n for n, _ in g.ref.file_view(path, label)]
+        nm = names[0] if (mode == "u" or allow_nonlast or Ref.sorted_on_read(pl, label)) else filev[-1]
+        if mode == "w" and filev and filev[-1] != nm:
+            g.note(pl, label, "overwrite-nonlast")
+        g.emit((mode, path, pl, label, nm, g.payload(bound)))
+        g.note(pl, label, "overwrite" if mode == "w" else "rewrite")
     for _ in range(rng.randint(5, 9)):
         r = rng.random()
         filev = [n for n, _ in g.ref.file_view(path, label)]
+        if links and rng.random() < links:
+            op = g.link_op(path, pl, label)
+            if op is not None:
+                g.emit(op); names.append(op[4]); g.note(pl, label, "link")
+                continue
         if r < 0.4 and names and not (label == F and AVOID["afn_overwrite"]):
             nm = rng.choice([names[0], names[-1], rng.choice(names)])
             if mode == "w" and not allow_nonlast and filev:
                 nm = filev[-1]
-            if mode == "w" and filev and filev[-1] != nm:
+            if g.ref.pinned(join(path, nm)):
+                continue
+            m2 = mode if is_link(g.ref.nodes[path]["names"][nm][1]) else g.array_mode(path, pl, label, nm, mode)
+            if m2 == "w" and filev and filev[-1] != nm:
                 g.note(pl, label, "overwrite-nonlast")
-            g.emit((mode, path, pl, label, nm, g.payload(bound)))
-            g.note(pl, label, "overwrite" if mode == "w" else "rewrite")
+            g.emit((m2, path, pl, label, nm, g.payload(bound)))
+            g.note(pl, label, "overwrite" if m2 == "w" else "rewrite")
         elif r < 0.75 and len(names) > 1:
             nm = rng.choice([names[0], names[-1], rng.choice(names)])
-            if nm == "GridCoordinates":
+            if nm == "GridCoordinates" or g.ref.pinned(join(path, nm)):
                 continue
             g.emit(("d", path, pl, nm)); names.remove(nm)
             g.note(pl, label, "delete")
@@ -780,8 +1048,9 @@ def route_to(pl):
 
 
 # ----------------------------------------------------------------------------------------------- probes
-def route_ops(pl):
-    """ops that make a node labelled pl exist -> (ops, path of that node) or None"""
+def route_ops(pl, fixed=False):
+    """ops that make a node labelled pl exist -> (ops, path of that node) or None; fixed: single children get their default
+    names (the same ops on every call)"""
     import random
     chain = route_to(pl)
     if chain is None:
@@ -790,9 +1059,9 @@ def route_ops(pl):
     path = "/B"
     for step in chain:
         if step[0] == "mkbase":
-            g.emit(mk_op("/B", step[1]))
+            g.emit(mk_op("/B", step[1], step[1][3][0][0] if fixed else None))
         elif step[0] == "mk":
-            op = mk_op(path, step[1])
+            op = mk_op(path, step[1], step[1][3][0][0] if fixed else None)
             g.emit(op)
             for name, _ in (op[4][:1] if len(step) == 3 else op[4]):
                 path = join(path, name)
@@ -865,8 +1134,18 @@ def model_lines(lines, out, exp=None):
     """the lines the engine answers (w / u / d / v / reopen) and the implementation's answers to them; the deletion of a
     single child (a container the model does not know) becomes `drop <path>`: the engine forgets the subtree"""
     ml, il = [], []
+    second = False                      # inside the lines that write the second file (the target of the links)
     for i, (l, o) in enumerate(zip(lines, out)):
         t = l.split(" ")
+        if t[0] == "open" and t[1] == "w" and (t[2].endswith(".donor") or t[2].endswith(".donor.new")):
+            second = 2                  # open w ... close, open m ... close
+        if second:
+            if t[0] == "close":
+                second -= 1
+            continue
+        if t[0] == "open" and t[1] == "r":            # the fresh open after the second file was written again
+            ml.append("reopen r"); il.append("o" + o[1:])
+            continue
         if t[0] == "d" and exp is not None and len(exp[i]) > 3 and exp[i][3]:
             ml.append("drop " + join(t[1], t[3]))
             continue
@@ -874,7 +1153,7 @@ def model_lines(lines, out, exp=None):
             for g in exp[i][3]:
                 ml.append("drop " + g)
             continue
-        if t[0] in ("w", "u", "d", "v", "reopen"):
+        if t[0] in ("w", "u", "d", "v", "reopen", "ln"):
             ml.append(l); il.append(o)
     return ml, il
 
@@ -1044,7 +1323,7 @@ def run(ck):
     covered = {}
     work = ck.work
     state = {"n": 0, "hard": 0, "found": 0}
-    AVOID["afn_overwrite"] = AVOID["pzone_integral"] = AVOID["pit"] = False
+    AVOID["afn_overwrite"] = AVOID["pzone_integral"] = AVOID["pit"] = AVOID["stale_array"] = False
     reported = set()
 
     def finding(key, replay_dict):
@@ -1064,8 +1343,15 @@ def run(ck):
     tables = {"shadowed": [], "no_block": [], "unsound": [], "kinds": {}, "verdicts": {}, "bad_nrow": [], "bad_dblock": [], "bad_wrow": []}
     for l in tl:
         t = l.split()
-        if t[0] in ("delete_table_ok", "write_table_ok", "addr_tails_ok"):
+        if t[0] in ("delete_table_ok", "write_table_ok", "addr_tails_ok", "link_writer_ok", "copy_keeps_links", "general_write_mentions_cache"):
             tables["verdicts"][t[0]] = t[1]
+        elif t[0] == "link_parents":
+            LINK_PARENTS.clear()
+            LINK_PARENTS.update(t[1].split(",") if len(t) > 1 else [])
+        elif t[0] == "goto":
+            GOTO_CHILDREN[t[1]] = t[2].split(",") if len(t) > 2 else []
+        elif t[0] == "bad_link_parent":
+            tables.setdefault("bad_link_parent", []).append(t[1])
         elif t[0] == "shadowed":
             tables["shadowed"].append(tuple(t[1:4]))
         elif t[0] == "no_block":
@@ -1126,6 +1412,8 @@ def run(ck):
         want = sig(fails[0])
 
         def still(sub):
+            if not links_well_formed(sub):
+                return False
             l2, e2, o2, oc2 = exec_case(sub, backend, compress, "shrink")
             f2 = evaluate(sub, l2, e2, o2, oc2)
             return bool(f2) and order_by_design(sub, f2) is None and any(sig(f) == want for f in f2)
@@ -1134,6 +1422,7 @@ def run(ck):
         f2 = evaluate(small, l2, e2, o2, oc2) or fails
         hard({"level": "api", "backend": backend, "compress": compress, "ops": ser(small),
                       "history": [lines_of_op(o) for o in small], "failures": f2[:4], "class": f2[0]["class"], "found_by": tag,
+                      "failures_before_shrinking": fails[:2],
                       "replay_hint": "./check C04 --replay <this file>"})
 
     def probe(ops, backend, kind, sample_extra=None):
@@ -1187,6 +1476,35 @@ def run(ck):
         elif fails:
             report(ops, backend, 0, fails, "probe failed write")
     static_broken = []          # what the tables flag without (yet) a failing input: searched for below, reported at the end
+    if tables["verdicts"].get("link_writer_ok") != "true":
+        static_broken.append({"broken_obligation": "cg_link_write is no longer the function Mirror.link_new transcribes (its calls, the "
+                                                   "lvalues it changes or its white list changed)", "bad_parents": tables.get("bad_link_parent", []),
+                              "table": "Gen_C04.link_parents / link_calls / link_assigns"})
+    if tables["verdicts"].get("copy_keeps_links") != "true":
+        static_broken.append({"broken_obligation": "the tree copy behind compress-on-close (cgns_io.c recurse_nodes) does not create every "
+                                                   "link again as a link", "table": "Gen_C04.copy_link_guard / Mirror.copy_keeps_links"})
+    # cg_link_write without cg_close + cg_open: the witness of C04_link_invisible_until_reopen_refuted on the library
+    for backend in ("adf", "hdf5"):
+        ops = [("w", "/B", "CGNSBase_t", "Zone_t", "Z0", 5), ("w", "/B/Z0", "Zone_t", "FlowSolution_t", "S1", 3),
+               ("w", "/B/Z0", "Zone_t", "FlowSolution_t", "S2", 4), ("lnraw", "/B/Z0", "Zone_t", "FlowSolution_t", "L1", "", "/B/Z0/S1")]
+        fails, lines, out, outcome = probe(ops, backend, "link without reopen")
+        grp = ("/B/Z0", "Zone_t", "FlowSolution_t")
+        mine = [f for f in fails if f.get("group") == grp and f["class"] == "content" and f.get("oracle", "").startswith("O1")
+                and dict(f["reopened"]).get("L1") == "@|/B/Z0/S1" and "L1" not in dict(f["session"])]
+        if mine and len(mine) == len(fails):
+            finding("link-invisible-until-reopen",
+                    {"witness": "C04_link_invisible_until_reopen_refuted", "ops": ser(ops), "history": [lines_of_op(o) for o in ops],
+                     "backend": backend, "failures": mine[:1],
+                     "what": "cg_link_write creates the link node in the file and updates nothing in the session: cg_nsols & co. do not "
+                             "count it until the file is closed and opened again (cgnslib.c: 'Need to fix this ... to keep the in-core "
+                             "information current')"})
+            if outcome == "ok":
+                correspond(ops, backend, 0, lines, out)
+        elif fails:
+            report(ops, backend, 0, fails, "probe link without reopen")
+        else:
+            corr_broken.append({"probe": "the witness of C04_link_invisible_until_reopen_refuted does not diverge on the implementation",
+                                "backend": backend})
     for fn, how in tables["bad_nrow"]:
         if True:
             static_broken.append({"broken_obligation": "a node-context writer does not store the id of the node it creates",
@@ -1366,16 +1684,92 @@ def run(ck):
             correspond(ops, backend, compress, lines, out, exp)
         return fails
 
+    # cg_array_general_write on an array the library loaded when it opened the file (the witness of
+    # C04_cached_array_not_refreshed_diverges): the table says whether cgi_array_general_write mentions array->data at all
+    r = route_ops("ReferenceState_t")
+    if r is not None:
+        rops, rpath = r
+        stale_seen = False
+        for backend in ("adf", "hdf5"):
+            ops = rops + [("w", rpath, "ReferenceState_t", A, "A1", 5), ("reopen", "m"), ("u", rpath, "ReferenceState_t", A, "A1", 7)]
+            fails, lines, out, outcome = probe(ops, backend, "array rewritten in place after a reopen")
+            grp = (rpath, "ReferenceState_t", A)
+            mine = [f for f in fails if f.get("group") == grp and f["class"] == "content" and "A1:7!a=5" in str(f.get("got", f.get("session")))]
+            if mine and all(f.get("group") == grp for f in fails):
+                stale_seen = True
+                AVOID["stale_array"] = True
+                finding("array-general-write-stale-cache",
+                        {"witness": "C04_cached_array_not_refreshed_diverges", "ops": ser(ops), "history": [lines_of_op(o) for o in ops],
+                         "backend": backend, "failures": mine[:2],
+                         "what": "cg_array_general_write on an existing DataArray_t whose data cgi_read_array loaded at cg_open (parents other "
+                                 "than GridCoordinates_t / FlowSolution_t / ...) writes the node and leaves array->data alone: cg_array_read "
+                                 "and cg_array_read_as keep answering the old values until the file is opened again"})
+            elif fails:
+                report(ops, backend, 0, fails, "probe array rewritten in place")
+            elif outcome == "ok":
+                correspond(ops, backend, 0, lines, out)
+        says = tables["verdicts"].get("general_write_mentions_cache")
+        if (says == "false") != stale_seen:
+            corr_broken.append({"probe": "Gen_C04.general_write_mentions_cache = %s but the in-place rewrite of a loaded array %s on the "
+                                         "implementation" % (says, "diverges" if stale_seen else "does not diverge")})
+
+    # ---- (l) links: under every parent label cg_link_write accepts, a link into a second file, a link to a sibling in the same
+    # file and a second link that is deleted again, with edits of the siblings around them; cg_close + cg_open in the middle
+    # (with compress-on-close that is the rewrite of the file) and the fresh open at the end, before which the second file is
+    # written again with other payloads
+    link_targets = []
+    for pl in sorted(CAT):
+        if pl not in LINK_PARENTS:
+            continue
+        r = route_ops(pl)
+        if r is None:
+            continue
+        ks = link_kinds_at(r[1], pl)
+        if not ks:
+            continue
+        for ki, k in enumerate(ks):
+            if big or ki == (len(link_targets) % len(ks)):
+                link_targets.append((pl, k[0], k[2]))
+                if not big:
+                    break
+    lcombos = [("adf", 1), ("hdf5", -1), ("adf", -1), ("hdf5", 1), ("adf", 0), ("hdf5", 0)]
+    link_cov = []
+    stop = state["hard"] > 0
+    for li, (pl, label, bound) in enumerate(link_targets):
+        if stop:
+            break
+        ops, path = route_ops(pl)
+        plan = donor_plan(pl, label, 1)
+        if plan is None:
+            continue
+        t = TAG.get(label, "N")
+        b = bound or 99
+        a_, b_, c_ = ("GridCoordinates" if label == "GridCoordinates_t" else t + "a"), t + "b", t + "c"
+        ops = ops + [("w", path, pl, label, a_, 1 % b), ("w", path, pl, label, b_, 2 % b),
+                     ("ln", path, pl, label, "Lx", "D", plan[1]), ("ln", path, pl, label, "Ls", "", join(path, a_)),
+                     ("ln", path, pl, label, "Ly", "D", plan[1]), ("d", path, pl, b_), ("reopen", "m"),
+                     ("w", path, pl, label, c_, 3 % b), ("d", path, pl, "Ly"), ("w", path, pl, label, "Ls", 5 % b),
+                     ("w", path, pl, label, b_, 4 % b), ("d", path, pl, c_)]
+        backend, compress = lcombos[li % len(lcombos)]
+        dist["links"] = dist.get("links", 0) + 1
+        covered.setdefault("%s/%s" % (pl, label), set()).update({"create", "overwrite", "delete", "link", "link-delete", "link-overwrite"})
+        link_cov.append("%s/%s" % (pl, label))
+        fails = one(ops, backend, compress, "links %s/%s" % (pl, label))
+        if fails:
+            report(ops, backend, compress, fails, "links %s/%s" % (pl, label))
+            stop = True
+    ck.extra["link_groups"] = link_cov
+
     # ---- (a) one focused history per sibling group
     targets = [(pl, k[0]) for pl in sorted(CAT) for k in CAT[pl] if pl != "CGNSTree_t" and not (pl == PIT and AVOID["pit"])]
-    stop = state["hard"] > 0
+    stop = stop or state["hard"] > 0
     combos = [("adf", 0), ("hdf5", 0), ("adf", 1), ("hdf5", -1), ("adf", -1), ("hdf5", 1)]
     for ti, target in enumerate(targets):
         if stop:
             break
         for rep in range(4 if big else 1):
             backend, compress = combos[(ti + 3 * rep) % len(combos)]
-            g = focused_history(ck.rng, target, allow_nonlast=(rep == 1) or (ti % 4 == 0))
+            g = focused_history(ck.rng, target, allow_nonlast=(rep == 1) or (ti % 4 == 0), links=0.15 if (ti + rep) % 2 else 0.0)
             if g is None:
                 continue
             dist["focused"] += 1
@@ -1434,7 +1828,7 @@ def run(ck):
             break
         backend = "adf" if j % 2 == 0 else "hdf5"
         compress = [0, 1, -1][j % 3]
-        g = Gen(ck.rng, big=big, allow_nonlast=(j % 2 == 0))
+        g = Gen(ck.rng, big=big, allow_nonlast=(j % 2 == 0), links=0.08 if j % 4 != 3 else 0.0)
         g.history(ck.rng.randint(30, 80) if big else ck.rng.randint(18, 36))
         dist["random"] += 1
         dist["max_groups"] = max(dist["max_groups"], len(g.ref.groups(nonempty_only=True)))
@@ -1453,6 +1847,8 @@ def run(ck):
     ck.extra["parent_labels_covered"] = sorted({k.split("/")[0] for k in covered})
     ck.extra["avoided_triggers"] = dict(AVOID)
     ck.extra["input_distribution"] = dist
+    ck.extra["model_vs_implementation_mismatches"] = {"count": len(corr_broken), "first": corr_broken[:2]}
+    ck.extra["table_obligations_without_failing_input"] = static_broken[:5]
 
     # ---- something broke without a failing input so far: widen the search (DESIGN.md 1.3)
     if (corr_broken or broken or static_broken) and not state["hard"] and not state["found"]:
@@ -1460,7 +1856,7 @@ def run(ck):
         for j in range(120 if big else 40):
             backend = "adf" if j % 2 == 0 else "hdf5"
             compress = [0, 1, -1][j % 3]
-            g = Gen(ck.rng, allow_nonlast=(j % 2 == 0))
+            g = Gen(ck.rng, allow_nonlast=(j % 2 == 0), links=0.1)
             g.history(ck.rng.randint(20, 45))
             lines, exp, out, outcome = exec_case(g.ops, backend, compress, "wide")
             fails = evaluate(g.ops, lines, exp, out, outcome)
@@ -1479,6 +1875,9 @@ def replay(ck, path):
     r = json.load(open(path))
     vlib.build_impl()
     exe = vlib.build_harness("c04_mod", ["c04_mod.c"])
+    pregen()
+    vlib.build_modelrun("c04")
+    load_link_parents()
     if "attr_target" in r:
         t = [t for t in attr_targets() if t[0] == r["attr_target"]]
         if not t:
